@@ -91,6 +91,25 @@ def run(ctx):
             hist.check(repr(cfg), lambda: I.es.ElasticsearchQueryBuilder(**es.python_spelling(cfg)),
                        lambda bb, t: es.build(cfg, t, bb)[0], d, {"cfg": cfg, "tree": d},
                        poison=[es.refused_in_nested(schema)] if schema else ())
+        if ci % 4 == 1 and ok and schema:
+            # the same through the public traversal entry `visit()`: a traversal refused in the middle of a nested field
+            # group, then the traversal of this tree on the same builder (seeded C05-H: the field path kept on the
+            # builder, pushed and popped without try / finally, reset by `__call__` only)
+            pz = es.refused_in_nested(schema)
+            if pz is not None:
+                bb = I.es.ElasticsearchQueryBuilder(**es.python_spelling(cfg))
+                try:
+                    bb.visit(common.load_tree(pz))
+                except Exception:
+                    pass
+                try:
+                    got = {"ok": es.canon_json(bb.visit(common.load_tree(d))[0].json)}
+                except Exception as e:
+                    got = {"err": [type(e).__name__, str(e)]}
+                ctx.count("history: visit() refused half-way, then visit() again")
+                if got != {"ok": r["ok"]}:
+                    ctx.fail("after a traversal refused in the middle of a nested field group, visit() on the same builder "
+                             "translates differently from a fresh builder", {"cfg": cfg, "tree": d, "got": got, "fresh": r})
         has = any(n["c"].endswith("Operation") or n["c"] in ("Not", "Prohibit", "SearchField")
                   for _, n in common.tree_nodes(d))
         ctx.case((repr(cfg), repr(common.strip_tree(d))), nontrivial=ok and has,
